@@ -573,3 +573,22 @@ def lower_bound(t, depth=0):
         return lower_bound(t.a[1], depth + 1)
     lo, _hi = term_range(t)
     return lo
+
+
+def delta_lower_bound(nxt, cur):
+    """syntactic lower bound of nxt - cur, distributing over gated alternatives (None = unknown)"""
+    if nxt.k == "gamma":
+        a, b = delta_lower_bound(nxt.a[1], cur), delta_lower_bound(nxt.a[2], cur)
+        return None if a is None or b is None else min(a, b)
+    d = linearize(nxt) - linearize(cur)
+    lo = d.c
+    for atom, coef in d.co.items():
+        if atom.k == "gamma":
+            alo, ahi = lower_bound(atom), None
+        else:
+            alo, ahi = term_range(atom)
+        bound = alo if coef > 0 else ahi
+        if bound is None:
+            return None
+        lo += coef * bound
+    return lo
